@@ -8,7 +8,7 @@ RULE = ('every operator x every ordered operand pair of the catalogue x operand 
         'Q op Q same unit, Q op Q other unit}; the oracle is the same operator applied to the bare values in the '
         'same process; results compared by type and repr (nan / -0.0 aware), exceptions by class. distinct = '
         '(operator, placement, left operand, right operand); non-trivial = all of them')
-ASSUME = ['CPython numeric tower as the reference semantics', 'default BasicQuantity (pint mode off)']
+ASSUME = ['CPython numeric tower as the reference semantics', 'basic and pint mode (bool magnitudes left out in pint mode: pint itself refuses them)']
 
 CAT = [0, 1, -1, 2, 7, -3, 2 ** 53, 2 ** 64, 0.5, -0.5, 1e-300, 1e300, float('inf'), float('-inf'),
        float('nan'), True, False, -0.0, 0.0, 3.75, 255, -256,
